@@ -15,40 +15,41 @@
 (***************************************************************************)
 EXTENDS OligoMmap, TraceLib
 VARIABLES started,    \* a run is in progress
-          rowsSeen    \* decoded rows of the output file consumed so far (-1: file event not yet seen)
-tvars == <<mvars, l, started, rowsSeen>>
+          rowsSeen,   \* decoded rows of the output file consumed so far (-1: file event not yet seen)
+          norows      \* this run's records are arbitrary (not ordinal-coded): no row events follow the file event
+tvars == <<mvars, l, started, rowsSeen, norows>>
 
 NoCfg == [n |-> 0, kc |-> 1, dl |-> 1, hdr |-> FALSE, ksz |-> 1, nw |-> 1]
-TInit == TrackInit /\ l = 1 /\ started = FALSE /\ rowsSeen = 0 /\ InitCfg(NoCfg)
+TInit == TrackInit /\ l = 1 /\ started = FALSE /\ rowsSeen = 0 /\ norows = FALSE /\ InitCfg(NoCfg)
 
 A(i) == Ev.a[i]
 W == Ev.t
 IsWorker == W \in Workers
-Skip == Consume /\ UNCHANGED <<mvars, started, rowsSeen>>
+Skip == Consume /\ UNCHANGED <<mvars, started, rowsSeen, norows>>
 RunComplete == ~started \/ (Done /\ rowsSeen = cfg.n)       \* the previous run's file and all its rows have been seen
 
 TReset == /\ Is("reset") /\ RunComplete
           /\ Ev.nw >= 1 /\ Ev.kc >= 1
           /\ Reset([n |-> Ev.n, kc |-> Ev.kc, dl |-> Ev.dl, hdr |-> (Ev.hdr = 1), ksz |-> Ev.ksz, nw |-> Ev.nw])
-          /\ started' = TRUE /\ rowsSeen' = 0 - 1 /\ Consume
+          /\ started' = TRUE /\ rowsSeen' = 0 - 1 /\ norows' = (Ev.norows = 1) /\ Consume
 
 TPlan == /\ Is("oligo.mmap_plan") /\ started /\ Plan
          /\ A(1) = RowLen /\ A(2) = HdrLen /\ A(3) = cap'
-         /\ Consume /\ UNCHANGED <<started, rowsSeen>>
+         /\ Consume /\ UNCHANGED <<started, rowsSeen, norows>>
 
 \* the header write, or nothing at all when no header was asked for
 THeader == /\ Is("mm.write") /\ phase = "hdr" /\ cfg.hdr /\ WriteHeader
            /\ A(1) = 0 /\ A(2) = HdrLen /\ A(3) = cap
-           /\ Consume /\ UNCHANGED <<started, rowsSeen>>
-TNoHeader == /\ phase = "hdr" /\ ~cfg.hdr /\ WriteHeader /\ UNCHANGED <<l, started, rowsSeen>>
+           /\ Consume /\ UNCHANGED <<started, rowsSeen, norows>>
+TNoHeader == /\ phase = "hdr" /\ ~cfg.hdr /\ WriteHeader /\ UNCHANGED <<l, started, rowsSeen, norows>>
 
 TStart == Is("oligo.worker_start") /\ phase = "work" /\ IsWorker /\ pc[W] = "take" /\ Skip
 TBefTake == Is("oligo.before_take") /\ phase = "work" /\ IsWorker /\ pc[W] = "take" /\ Skip
 TTake == /\ Is("seq.take") /\ IsWorker /\ reader < cfg.n /\ Take(W)
          /\ held'[W] = A(1)
-         /\ Consume /\ UNCHANGED <<started, rowsSeen>>
+         /\ Consume /\ UNCHANGED <<started, rowsSeen, norows>>
 TTakeNone == /\ Is("seq.take_none") /\ IsWorker /\ reader = cfg.n /\ Take(W)
-             /\ Consume /\ UNCHANGED <<started, rowsSeen>>
+             /\ Consume /\ UNCHANGED <<started, rowsSeen, norows>>
 TAftTake == Is("oligo.after_take") /\ IsWorker /\ pc[W] = "write" /\ held[W] = A(1) /\ Skip
 \* C14: the largest code and column used for this record lie inside their tables
 TIdx == Is("oligo.idx") /\ A(1) <= A(2) /\ A(3) <= A(4) /\ A(4) = cfg.kc /\ Skip
@@ -61,7 +62,7 @@ TWrite == /\ Is("mm.write") /\ phase = "work" /\ IsWorker /\ pc[W] = "write"
           /\ A(1) + A(2) <= cap
           /\ \A x \in writes : x.off + x.len <= A(1) \/ A(1) + A(2) <= x.off
           /\ WriteRow(W)
-          /\ Consume /\ UNCHANGED <<started, rowsSeen>>
+          /\ Consume /\ UNCHANGED <<started, rowsSeen, norows>>
 TAftWrite == Is("oligo.after_write") /\ IsWorker /\ pc[W] = "take" /\ Skip
 TExit == Is("oligo.worker_exit") /\ IsWorker /\ pc[W] = "exit" /\ Skip
 
@@ -69,10 +70,10 @@ TExit == Is("oligo.worker_exit") /\ IsWorker /\ pc[W] = "exit" /\ Skip
 TFile == /\ Is("file") /\ Done /\ rowsSeen = 0 - 1
          /\ Ev.size = cap /\ Ev.nul = 0 /\ Ev.lines = cfg.n + (IF cfg.hdr THEN 1 ELSE 0)
          /\ Covered = 0..(cap - 1) /\ cap = HdrLen + cfg.n * RowLen
-         /\ rowsSeen' = 0 /\ Consume /\ UNCHANGED <<mvars, started>>
+         /\ rowsSeen' = (IF norows THEN cfg.n ELSE 0) /\ Consume /\ UNCHANGED <<mvars, started, norows>>
 \* rows come in file order: row i is the i-th decoded line and belongs to record i
 TRow == /\ Is("row") /\ Done /\ Ev.i = rowsSeen /\ Ev.rec = Ev.i /\ Ev.i \in 0..(cfg.n - 1)
-        /\ rowsSeen' = rowsSeen + 1 /\ Consume /\ UNCHANGED <<mvars, started>>
+        /\ ~norows /\ rowsSeen' = rowsSeen + 1 /\ Consume /\ UNCHANGED <<mvars, started, norows>>
 TEof == Is("eof") /\ RunComplete /\ Skip
 
 TNext == \/ TReset \/ TPlan \/ THeader \/ TNoHeader \/ TStart \/ TBefTake \/ TTake \/ TTakeNone \/ TAftTake
